@@ -34,6 +34,7 @@ def run(model, res, tier):
     res.rule('R4', 'error set => result None; result is never an error object')
     res.rule('R5', 'every reachable loop has a termination argument')
     res.rule('R6', 'no regular expression used by the lexer or by reachable code is exponentially ambiguous')
+    res.rule('R7', 'event delivery runs over a snapshot of the listener list: a listener that subscribes (itself) during delivery cannot make the evaluation run forever (shared with C20.R1)')
     res.assumptions += ['A1 host lists are finite; str() of a raised exception does not raise',
                         'A4 stdlib iterables other than itertools.count/cycle/repeat are finite',
                         'A6 KeyboardInterrupt/SystemExit are not "raising callbacks"']
@@ -46,6 +47,14 @@ def run(model, res, tier):
     _r4(model, res, c, m, f, root)
     _r5(model, res, c)
     _r6(model, res, c)
+    from . import c20
+    from .. import abshelp as H
+
+    def delivery(tmp):
+        for em_m, em_c in c20.find_emitter(model):
+            methods = dict((n.name, n) for n in em_c.body if isinstance(n, ast.FunctionDef))
+            c20._r1(model, tmp, em_m, em_c, methods, c20.storage_attr(em_m, em_c, methods))
+    H.borrow(res, 'R7', 'event delivery', delivery)
 
 
 # ---------------------------------------------------------------------------------------------------
